@@ -64,6 +64,7 @@ def run_one(mod, pid, case):
     H.DEBUG_DEFAULT = h % 5 == 0
     H.LOOP_DEBUG_DEFAULT = h % 11 == 3
     H.POLL_DEFAULT = h % 3 == 1
+    H.EAGER_DEFAULT = h % 13 == 5 and getattr(mod, "EAGER_OK", True)
     try:
         if isinstance(case, dict) and case.get("k") == "soak":
             from . import soak
@@ -73,6 +74,9 @@ def run_one(mod, pid, case):
         if H.DEBUG_DEFAULT and isinstance(r, dict):
             r.setdefault("obs", {})
             r["obs"]["cases_with_debug_logging_on"] = 1
+        if H.EAGER_DEFAULT and isinstance(r, dict):
+            r.setdefault("obs", {})
+            r["obs"]["cases_with_eager_task_factory"] = 1
         if H.LOOP_DEBUG_DEFAULT and isinstance(r, dict):
             r.setdefault("obs", {})
             r["obs"]["cases_with_asyncio_debug_mode"] = 1
@@ -81,6 +85,7 @@ def run_one(mod, pid, case):
         H.DEBUG_DEFAULT = False
         H.LOOP_DEBUG_DEFAULT = False
         H.POLL_DEFAULT = False
+        H.EAGER_DEFAULT = False
 
 
 def worker(pid, tier, seed, shard, nshards, out_path, budget_s):
